@@ -107,11 +107,22 @@ def run_case(prop, case, res):
         before = image()
         try:
             if op == "r":
-                got = int(RD[w](a))
+                # the optional flags of the MemorySystem interface (statistics / "write to lower memory directly")
+                # mean nothing to a flat memory: the same access with or without them
+                fl = case.get("flags", {}).get(str(i))
+                got = int(RD[w](a)) if fl is None or toy else int(RD[w](a, fl))
             else:
                 f, T = WR[w]
-                f(a, T(v))
+                fl = case.get("flags", {}).get(str(i))
+                if fl is None:
+                    f(a, T(v))
+                elif i % 2:
+                    f(a, T(v), fl)
+                else:
+                    f(a, T(v), directly_write_to_lower_memory=fl)
                 got = None
+                if fl is not None:
+                    res.count("accesses_with_explicit_flag")
             raised = None
         except MemoryAddressError as e:
             raised = e
@@ -189,6 +200,8 @@ def run_shard(spec, res):
         case = gen_rv(rng, rng.randint(60, 150)) if spec["kind"] == "rv" else gen_toy(rng, rng.randint(40, 120))
         if rng.random() < 0.3:
             case["neighbours"] = rng.choice([16, 100, 5000])
+        if rng.random() < 0.4:
+            case["flags"] = {str(i_): rng.random() < 0.5 for i_ in range(len(case["ops"])) if rng.random() < 0.3}
         guarded(run_case, "C18", case, res)
         res.evaluations += 1
         if it < 1:
